@@ -318,12 +318,37 @@ def run_robust(job, res):
             res.violation(f"start-raises-with-raising-callback:{core.exc_sig(exc)}", f"start with a raising subscribe callback raised {type(exc).__name__}", case)
             continue
         steps = gen.history(rng, version, 40, {"garbage": 0.1, "ctl": 0.15, "sleep": True, "ota": False})
+        import threading
+
+        outcome = {}
+
+        def play():
+            try:
+                for s in steps:
+                    if s[0] == "in":
+                        eng.feed(s[1])
+                    elif s[0] == "set":
+                        eng.call("set", *s[1:5])
+                outcome["done"] = True
+            except PumpDied:
+                outcome["died"] = True
+            except BaseException as exc:      # harness trouble: reported by the caller
+                outcome["error"] = exc
+
+        th = threading.Thread(target=play, daemon=True, name="vf-robust")
+        th.start()
+        th.join(30)
+        if th.is_alive():
+            # message processing never came back: a callback that raised earlier left the pump blocked (a lock that was
+            # not released, a wait that is never satisfied)
+            res.violation("raising-callback-blocks-pump", f"after a raising {'publish' if eng.pub_raise else 'subscribe'} callback message processing hangs "
+                          f"({len(eng.pubs)} publishes, {len(eng.logic_in)} lines handled so far)", dict(case, steps=steps[:30]))
+            return          # the blocked thread cannot be recovered: end this job
+        if "error" in outcome:
+            raise outcome["error"]
         try:
-            for s in steps:
-                if s[0] == "in":
-                    eng.feed(s[1])
-                elif s[0] == "set":
-                    eng.call("set", *s[1:5])
+            if outcome.get("died"):
+                raise PumpDied()
         except PumpDied:
             # only the callback's doing if the same history survives with silent callbacks (else it is C01's business)
             ref = mk(flavour, "in", "out", version=version)
